@@ -176,6 +176,13 @@ def _collect_loops(stmts):
         a = stmts[i]
         b = stmts[i + 1] if i + 1 < len(stmts) else None
         new = _collect_pair(a, b) if b is not None else None
+        if new is None and b is not None:
+            new = _return_pair(a, b)
+            if new is not None:
+                out.append(new)
+                i += 2
+                changed = True
+                continue
         if new is not None:
             # a for loop leaves its target bound, a comprehension does not
             tnames = {x.id for x in ast.walk(b.target) if isinstance(x, ast.Name)}
@@ -242,6 +249,59 @@ def _without_temporaries(loop):
     new = ast.For(target=loop.target, iter=loop.iter, body=[new_last], orelse=[])
     new._temporaries = set(m)
     return ast.copy_location(new, loop)
+
+
+def _return_pair(a, b):
+    """`if c: return A` directly followed by `return B` is `return A if c else B` (so that the guard-clause spelling of the evaluate idiom,
+    `if callable(x): return x(ctx)` / `return x`, is the idiom)."""
+    if isinstance(a, ast.If) and not a.orelse and len(a.body) == 1 and isinstance(a.body[0], ast.Return) and a.body[0].value is not None \
+            and isinstance(b, ast.Return) and b.value is not None:
+        t = a.test
+        if isinstance(t, ast.Call) and isinstance(t.func, ast.Name) and t.func.id == "callable" and len(t.args) == 1 and not t.keywords:
+            # `return f(x(c))` / `return f(x)`: the idiom sits inside a common wrapper
+            merged = _merge_on_callable(a.body[0].value, b.value, ast.dump(t.args[0]), a.test)
+            v = merged if merged is not None else ast.copy_location(ast.IfExp(test=a.test, body=a.body[0].value, orelse=b.value), a)
+            return ast.copy_location(ast.Return(value=v), a)
+    return None
+
+
+def _merge_on_callable(e1, e2, xdump, test):
+    """e2 with its occurrence of x replaced by `x(c) if callable(x) else x`, when e1 is e2 with that occurrence replaced by x(c); else None."""
+    import copy
+    if ast.dump(e2) == xdump and isinstance(e1, ast.Call) and ast.dump(e1.func) == xdump and len(e1.args) == 1 and not e1.keywords:
+        return ast.copy_location(ast.IfExp(test=test, body=e1, orelse=e2), e1)
+    if type(e1) is not type(e2) or ast.dump(e1) == ast.dump(e2):
+        return None
+    diff = []
+    for (f1, v1), (f2, v2) in zip(ast.iter_fields(e1), ast.iter_fields(e2)):
+        if isinstance(v1, ast.AST) and isinstance(v2, ast.AST):
+            if ast.dump(v1) != ast.dump(v2):
+                diff.append((f1, None, v1, v2))
+        elif isinstance(v1, list) and isinstance(v2, list):
+            if len(v1) != len(v2):
+                return None
+            for k, (x1, x2) in enumerate(zip(v1, v2)):
+                if isinstance(x1, ast.AST) and isinstance(x2, ast.AST):
+                    if ast.dump(x1) != ast.dump(x2):
+                        diff.append((f1, k, x1, x2))
+                elif x1 != x2:
+                    return None
+        elif v1 != v2:
+            return None
+    if len(diff) != 1:
+        return None
+    f, k, x1, x2 = diff[0]
+    sub = _merge_on_callable(x1, x2, xdump, test)
+    if sub is None:
+        return None
+    new = copy.copy(e2)
+    if k is None:
+        setattr(new, f, sub)
+    else:
+        lst = list(getattr(new, f))
+        lst[k] = sub
+        setattr(new, f, lst)
+    return new
 
 
 def _collect_pair(a, b):
